@@ -24,7 +24,8 @@
 (* Effect(lines, i) for a statement-bearing line i:                        *)
 (*   the nearest non-blank line above i decides: a directive line gives    *)
 (*   "ignore"/"nokvp"; code, ordinary comments, comments with extra text,  *)
-(*   statement lines give "none"; a line with a TRAILING directive is      *)
+(*   statement lines give "none"; a line on which a directive comment      *)
+(*   shares the line with code (trailing, or in front of a statement) is   *)
 (*   ambiguous in the property text and gives "any".                       *)
 (***************************************************************************)
 EXTENDS Integers, Sequences, FiniteSets, TLC, Json
@@ -34,7 +35,7 @@ CONSTANTS LineKinds, MaxLines, Modes
 IgnoreLines == {"ign", "ignblock", "ignupper", "ignpadded", "igntight"}
 NoKvpLines  == {"nokvp", "nokvpblock", "nokvpupper"}
 StmtLines   == {"stmt", "stmt2", "stmtml", "stmttrail", "sameline"}
-TrailingLines == {"codetrail", "stmttrail"}
+TrailingLines == {"codetrail", "stmttrail", "sameline"}   \* a directive comment that shares its line with code
 
 RECURSIVE NearestNonBlankAbove(_, _)
 NearestNonBlankAbove(lines, i) ==
@@ -81,7 +82,7 @@ AtMostOneLine ==
 (* separated by a code or comment line: no effect *)
 SeparatedMeansNone ==
   \A i \in 1..Len(lines) : (lines[i] \in StmtLines /\ NearestNonBlankAbove(lines, i) # 0
-                              /\ lines[NearestNonBlankAbove(lines, i)] \in {"code", "attr", "cmt", "cmtextra", "stmt", "stmt2", "stmtml", "sameline"})
+                              /\ lines[NearestNonBlankAbove(lines, i)] \in {"code", "attr", "cmt", "cmtextra", "stmt", "stmt2", "stmtml"})
                              => Effect(lines, i) = "none"
 (* a directive placed after the statement never affects it *)
 AfterMeansNone ==
